@@ -211,6 +211,7 @@ func c10Run(t *testing.T, c *choice.Stream, r *Result, opt RunOpt, forced *c10Fo
 			}
 		}
 		dl := time.Duration(c.Pick("deadline.ms", 0, 1, 50, 900, 2900, 3100, 5000)) * time.Millisecond
+		withCause := c.Bool("ctx.cause", 1, 3)
 
 		var ctx context.Context
 		var cancel context.CancelFunc
@@ -276,7 +277,15 @@ func c10Run(t *testing.T, c *choice.Stream, r *Result, opt RunOpt, forced *c10Fo
 		if useDeadline {
 			// the context is created inside the bubble by main, so that its timer is on the fake clock
 		} else {
-			ctx, cancel = context.WithCancel(context.Background())
+			if withCause {
+				// the caller attaches a cause of its own: ctx.Err() is still what the
+				// call's error has to match
+				var cc context.CancelCauseFunc
+				ctx, cc = context.WithCancelCause(context.Background())
+				cancel = func() { cc(errC10Cause) }
+			} else {
+				ctx, cancel = context.WithCancel(context.Background())
+			}
 			if far := c.Pick("far.deadline.s", 0, 0, 120, 600, 1800); far > 0 {
 				// a context that is cancelled explicitly long before its own (far) deadline
 				var c2 context.CancelFunc
@@ -359,7 +368,11 @@ func c10Run(t *testing.T, c *choice.Stream, r *Result, opt RunOpt, forced *c10Fo
 				e.Sim.WakeAfter(cancelAtTime)
 			}
 			if useDeadline {
-				ctx, cancel = context.WithTimeout(context.Background(), dl)
+				if withCause {
+					ctx, cancel = context.WithTimeoutCause(context.Background(), dl, errC10Cause)
+				} else {
+					ctx, cancel = context.WithTimeout(context.Background(), dl)
+				}
 				defer cancel()
 				e.Sim.FairAfter = dl + 1 // liveness is judged from the deadline on: no simulator-made delays after it
 				if silence {
@@ -443,6 +456,12 @@ func c10Run(t *testing.T, c *choice.Stream, r *Result, opt RunOpt, forced *c10Fo
 				}
 				return
 			}
+			if conn.IsClosed() && !cl.IsClosed() {
+				// a cancellation that came at the very end of the handshake: either the
+				// handshake fails, or the client it returns is usable
+				r.Violate("not-closed", "connect-ok-on-closed-conn", "Connect returned a client and no error, but the connection has been closed (by the handshake's own watchdog) and the client does not know: IsClosed()=false")
+				return
+			}
 			inCall = "Do"
 			if stuckAfter >= 0 {
 				conn.StopReadAt = conn.OutLen() + stuckAfter
@@ -522,3 +541,5 @@ func c10Run(t *testing.T, c *choice.Stream, r *Result, opt RunOpt, forced *c10Fo
 }
 
 var _ = choice.New
+
+var errC10Cause = errors.New("shutting down: caller's own cause")
